@@ -101,4 +101,24 @@ def readAllF (cfg : Cfg) : Nat → Nat → Str → List Req × Tail
 
 def readAll (cfg : Cfg) (inp : Str) : List Req × Tail := readAllF cfg (inp.length + 1) 0 inp
 
+/-! ### the chunked *encoder* (the inverse the round-trip theorem is stated against) -/
+
+/-- one lower-case hex digit -/
+def hexDigit (d : Nat) : Nat := if d < 10 then 48 + d else 87 + d
+
+/-- hex digits of `n`, most significant first (fuel `f`: `n < f` is always enough) -/
+def toHexF : Nat → Nat → Str
+  | 0, _ => []
+  | f + 1, n => if n < 16 then [hexDigit n] else toHexF f (n / 16) ++ [hexDigit (n % 16)]
+
+/-- `"%x" % n` -/
+def toHex (n : Nat) : Str := toHexF (n + 1) n
+
+/-- the chunked transfer coding of a list of chunks: each chunk as `size-in-hex CRLF data CRLF`, then the last chunk
+    `0 CRLF CRLF` (no extensions, no trailers).  (An empty chunk would *be* the last chunk, so the round-trip theorem
+    asks for non-empty chunks.) -/
+def encodeChunks : List Str → Str
+  | [] => [48, 13, 10, 13, 10]
+  | c :: cs => toHex c.length ++ 13 :: 10 :: (c ++ 13 :: 10 :: encodeChunks cs)
+
 end TornadoModel.C01.Spec
